@@ -3,7 +3,7 @@
    array sizes), and the witnesses that show the side conditions are tight. *)
 From Coq Require Import ZArith List Bool Arith Lia.
 From LZ4V Require Import Gen.Consts Gen.TPoolSites Model.WriteReg Model.TPool Model.Pipeline
-  Proofs.TPoolProofs Proofs.DecodeRingProofs Proofs.CompressProofs Proofs.NeverFullProofs Proofs.DeadlockProofs.
+  Proofs.TPoolProofs Proofs.DecodeRingProofs Proofs.CompressProofs Proofs.NeverFullProofs Proofs.DeadlockProofs Proofs.TerminationProofs Proofs.DecDeadlock.
 Import ListNotations.
 
 (* ---- the generated layer is consistent with what the models assume *)
@@ -187,3 +187,71 @@ Proof.
   pose proof (stuck_is_final c C1 HN D1 D2 sched st H Hn) as F. split; [exact F|].
   eapply comp_final; try eassumption. lia.
 Qed.
+
+(* ---- termination: every schedule is at most as long as the initial value of the measure
+        Phi = (N+4) * remaining work + number of awake threads, which strictly decreases on every pstep *)
+Theorem terminates : forall c, is_comp c -> 1 <= c_N c -> 2 <= c_tdepth c -> 1 <= c_wdepth c ->
+  exists bound, forall sched st, run c (init_state c) sched = Some st -> length sched <= bound.
+Proof. intros c C1 HN D1 D2. exists (Phi c (init_state c)). exact (comp_terminates c C1 HN D1 D2). Qed.
+
+Theorem terminates_legacy : forall N nfull last, 1 <= N ->
+  exists bound, forall sched st, run (cl_cfg N nfull last) (init_state (cl_cfg N nfull last)) sched = Some st -> length sched <= bound.
+Proof.
+  intros N nfull last HN. apply terminates; [left; reflexivity|exact HN|vm_compute; lia|vm_compute; lia].
+Qed.
+Theorem terminates_lz4f : forall N nfull last, 1 <= N -> 1 <= nfull ->
+  exists bound, forall sched st, run (cf_cfg N nfull last) (init_state (cf_cfg N nfull last)) sched = Some st -> length sched <= bound.
+Proof.
+  intros N nfull last HN Hn. apply terminates; [right; split; [reflexivity|exact Hn]|exact HN|vm_compute; lia|vm_compute; lia].
+Qed.
+
+(* ---- the decoding pipelines (1 decoder worker + 1 writer): deadlock freedom and termination.
+        Hypotheses: both queue depths >= 1, NB >= depth(tPool) + 2, and for the output side
+        NB >= depth(wPool) + 2 (legacy) / PB >= depth(wPool) + 2 (LZ4F)  -- the same ones as ring_safe *)
+Theorem no_deadlock_dec : forall c, is_dec c -> c_N c = 1 -> 1 <= c_tdepth c -> 1 <= c_wdepth c ->
+  c_tdepth c + 2 <= c_NB c -> (c_kind c = DecLegacy -> c_wdepth c + 2 <= c_NB c) -> (c_kind c = DecLZ4F -> c_wdepth c + 2 <= c_PB c) ->
+  forall sched st, run c (init_state c) sched = Some st -> final st = false -> exists pk st', pstep c st pk = Some st'.
+Proof. exact dec_no_deadlock. Qed.
+
+Theorem stuck_is_final_dec : forall c, is_dec c -> c_N c = 1 -> 1 <= c_tdepth c -> 1 <= c_wdepth c ->
+  c_tdepth c + 2 <= c_NB c -> (c_kind c = DecLegacy -> c_wdepth c + 2 <= c_NB c) -> (c_kind c = DecLZ4F -> c_wdepth c + 2 <= c_PB c) ->
+  forall sched st, run c (init_state c) sched = Some st -> (forall pk, pstep c st pk = None) -> final st = true.
+Proof. exact dec_stuck_is_final. Qed.
+
+Theorem terminates_dec : forall c, is_dec c -> c_N c = 1 -> 1 <= c_tdepth c -> 1 <= c_wdepth c ->
+  c_tdepth c + 2 <= c_NB c -> (c_kind c = DecLegacy -> c_wdepth c + 2 <= c_NB c) -> (c_kind c = DecLZ4F -> c_wdepth c + 2 <= c_PB c) ->
+  exists bound, forall sched st, run c (init_state c) sched = Some st -> length sched <= bound.
+Proof. intros c A1 A2 A3 A4 A5 A6 A7. exists (Phi c (init_state c)). exact (dec_terminates c A1 A2 A3 A4 A5 A6 A7). Qed.
+
+Lemma dl_side : forall nblocks, let c := dl_cfg nblocks in
+  is_dec c /\ c_N c = 1 /\ 1 <= c_tdepth c /\ 1 <= c_wdepth c /\ c_tdepth c + 2 <= c_NB c /\
+  (c_kind c = DecLegacy -> c_wdepth c + 2 <= c_NB c) /\ (c_kind c = DecLZ4F -> c_wdepth c + 2 <= c_PB c).
+Proof.
+  intros nblocks c. unfold c, dl_cfg, real_cfg; cbn [c_kind c_N c_tdepth c_wdepth c_NB c_PB].
+  split; [left; reflexivity|]. split; [reflexivity|]. split; [vm_compute; lia|]. split; [vm_compute; lia|]. split; [vm_compute; lia|].
+  split; [intros _; vm_compute; lia|discriminate].
+Qed.
+Lemma df_side : forall outs, let c := df_cfg outs in
+  is_dec c /\ c_N c = 1 /\ 1 <= c_tdepth c /\ 1 <= c_wdepth c /\ c_tdepth c + 2 <= c_NB c /\
+  (c_kind c = DecLegacy -> c_wdepth c + 2 <= c_NB c) /\ (c_kind c = DecLZ4F -> c_wdepth c + 2 <= c_PB c).
+Proof.
+  intros outs c. unfold c, df_cfg, real_cfg; cbn [c_kind c_N c_tdepth c_wdepth c_NB c_PB].
+  split; [right; reflexivity|]. split; [reflexivity|]. split; [vm_compute; lia|]. split; [vm_compute; lia|]. split; [vm_compute; lia|].
+  split; [discriminate|intros _; vm_compute; lia].
+Qed.
+
+(* at the generated TPool_create depths and ring sizes (NB_BUFFSETS, PBUFFERS_NB), any number of blocks *)
+Theorem no_deadlock_dec_legacy : forall nblocks sched st,
+  run (dl_cfg nblocks) (init_state (dl_cfg nblocks)) sched = Some st -> final st = false ->
+  exists pk st', pstep (dl_cfg nblocks) st pk = Some st'.
+Proof. intros nblocks. destruct (dl_side nblocks) as (A1&A2&A3&A4&A5&A6&A7). exact (dec_no_deadlock _ A1 A2 A3 A4 A5 A6 A7). Qed.
+Theorem no_deadlock_dec_lz4f : forall outs sched st,
+  run (df_cfg outs) (init_state (df_cfg outs)) sched = Some st -> final st = false ->
+  exists pk st', pstep (df_cfg outs) st pk = Some st'.
+Proof. intros outs. destruct (df_side outs) as (A1&A2&A3&A4&A5&A6&A7). exact (dec_no_deadlock _ A1 A2 A3 A4 A5 A6 A7). Qed.
+Theorem terminates_dec_legacy : forall nblocks, exists bound, forall sched st,
+  run (dl_cfg nblocks) (init_state (dl_cfg nblocks)) sched = Some st -> length sched <= bound.
+Proof. intros nblocks. destruct (dl_side nblocks) as (A1&A2&A3&A4&A5&A6&A7). exact (terminates_dec _ A1 A2 A3 A4 A5 A6 A7). Qed.
+Theorem terminates_dec_lz4f : forall outs, exists bound, forall sched st,
+  run (df_cfg outs) (init_state (df_cfg outs)) sched = Some st -> length sched <= bound.
+Proof. intros outs. destruct (df_side outs) as (A1&A2&A3&A4&A5&A6&A7). exact (terminates_dec _ A1 A2 A3 A4 A5 A6 A7). Qed.
